@@ -477,20 +477,8 @@ class List(list, base.Symbolic, pg_typing.CustomTyping):
       self._onchange_callback(field_updates)
 
   def _parse_slice(self, index: slice) -> Tuple[int, int, int]:
-    start = index.start if index.start is not None else 0
-    start = max(-len(self), start)
-    start = min(len(self), start)
-    if start < 0:
-      start += len(self)
-
-    stop = index.stop if index.stop is not None else len(self)
-    stop = max(-len(self), stop)
-    stop = min(len(self), stop)
-    if stop < 0:
-      stop += len(self)
-
-    step = index.step if index.step is not None else 1
-    return start, stop, step
+    # Same normalization as Python's built-in list (including negative steps).
+    return index.indices(len(self))
 
   def _init_kwargs(self) -> typing.Dict[str, Any]:
     kwargs = super()._init_kwargs()
@@ -541,11 +529,8 @@ class List(list, base.Symbolic, pg_typing.CustomTyping):
     if isinstance(index, slice):
       start, stop, step = self._parse_slice(index)
       replacements = [self._formalized_value(i, v) for i, v in enumerate(value)]
-      if step < 0:
-        replacements.reverse()
-        step = -step
-      slice_size = math.ceil((stop - start) * 1.0 / step)
       if step == 1:
+        slice_size = max(0, stop - start)
         if slice_size < len(replacements):
           for i in range(slice_size, len(replacements)):
             replacements[i] = Insertion(replacements[i])
@@ -553,13 +538,16 @@ class List(list, base.Symbolic, pg_typing.CustomTyping):
           replacements.extend(
               [pg_typing.MISSING_VALUE
                for _ in range(slice_size - len(replacements))])
-      elif slice_size != len(replacements):
-        raise ValueError(
-            f'attempt to assign sequence of size {len(replacements)} to '
-            f'extended slice of size {slice_size}')
+        indices = [start + i for i in range(len(replacements))]
+      else:
+        indices = list(range(start, stop, step))
+        if len(indices) != len(replacements):
+          raise ValueError(
+              f'attempt to assign sequence of size {len(replacements)} to '
+              f'extended slice of size {len(indices)}')
       updates = []
-      for i, r in enumerate(replacements):
-        update = self._set_item_without_permission_check(start + i * step, r)
+      for i, r in zip(indices, replacements):
+        update = self._set_item_without_permission_check(i, r)
         if update is not None:
           updates.append(update)
       if flags.is_change_notification_enabled() and updates:
